@@ -1,3 +1,3 @@
 From Coq Require Import ExtrOcamlBasic.
-From ChibiV Require Import Common.ExtractBase C14.Sx C14.World Gen.C14_ImportCode.
-Extraction "model.ml" ext_base resolve_import symbol_drop symbol_append list_sx.
+From ChibiV Require Import Common.ExtractBase C14.Sx C14.World Gen.C14_ImportCode Gen.C14_CondExpand.
+Extraction "model.ml" ext_base resolve_import symbol_drop symbol_append list_sx ce_check ce_expand.
